@@ -31,6 +31,7 @@ from typing import Optional
 from collections.abc import Iterable
 
 import dulwich.repo
+from dulwich.errors import CommitError
 from dulwich.file import FileLocked, GitFile
 from dulwich.index import Index, index_entry_from_stat, write_index_dict
 from dulwich.objects import Blob, Tree
@@ -628,9 +629,14 @@ class BareGitStore(GitStore):
         return cls(dulwich.repo.MemoryRepo())
 
     def _commit_tree(self, tree_id, message, author=None):
-        return _do_commit(
-            self.repo, message=message, tree=tree_id, ref=self.ref, author=author
-        )
+        try:
+            return _do_commit(
+                self.repo, message=message, tree=tree_id, ref=self.ref, author=author
+            )
+        except (CommitError, FileLocked) as exc:
+            # Another writer holds the ref's lock file or moved the ref
+            # while this commit was being made.
+            raise LockedError(self.ref.decode(DEFAULT_ENCODING)) from exc
 
     def _import_one(
         self,
